@@ -292,7 +292,7 @@ parser_rules: List[Tuple[str, Callable[[str], Instruction]]] = [
     ("err", lambda _x: instructions.Err()),
     ("assert", lambda _x: instructions.Assert()),
     ("int ", lambda x: instructions.Int(_parse_int(x) if _is_int(x) else x)),
-    ("pushints ", lambda x: instructions.PushInts(list(map(_parse_int, x.split(" "))))),
+    ("pushints", lambda x: instructions.PushInts(list(map(_parse_int, x.split())))),
     ("pushint ", lambda x: instructions.PushInt(_parse_int(x) if _is_int(x) else x)),
     ("txn ", lambda x: instructions.Txn(parse_transaction_field(x, False))),
     ("txna ", lambda x: instructions.Txna(parse_transaction_field(x, False))),
